@@ -310,7 +310,10 @@ func runLifeCase(c *Case, env *Env) *Result {
 			var seg segment.Segment
 			var err error
 			sched.Hold()
-			pi := Guard(func() { seg, _, err = ice.VerifNew(ToSegmentDocs(docs, dv, sched), model.NormFn(sd.Norm), sd.Mode) })
+			PreBuild(IceImpl, len(docs))
+			var size uint64
+			pi := Guard(func() { seg, size, err = ice.VerifNew(ToSegmentDocs(docs, dv, sched), model.NormFn(sd.Norm), sd.Mode) })
+			PostBuild(IceImpl, len(docs), size)
 			if pi != nil || err != nil {
 				sched.Release()
 				res.Fail = apiFail("C01", "world", "New", pi, err)
